@@ -271,7 +271,7 @@ SPEC = {
          'timeout': {'quick': 400, 'thorough': 1700},
          'fidelity': [_v(), _v(n=3, verbose=2, d0=2, d1=1, d2=2, g0=1, a0=0), _v(n=1, verbose=1, dots=False), _v(n=4, verbose=2, d0=1, d1=2, d2=1, a1=2)]},
         {'name': 'equal', 'fn': 'equal', 'params': _PE, 'call': _CE,
-         'bounds': {'quick': _BE + ' and verbose == 1 and (su != 0) + (td != 0) + imp <= 1 and kb <= 2 and (not both or (su == 0 and td == 0 and not imp))', 'thorough': _BE},
+         'bounds': {'quick': _BE + ' and verbose == 1 and (su != 0) + (td != 0) + imp <= 1 and kb <= 2 and (not both or (su == 0 and td == 0 and not imp))', 'thorough': _BE + ' and (su != 0) + (td != 0) + imp <= 1'},
          'slices': {'quick': ['j == %d and ka == %d' % (j, k) for j in (1, 2, 3) for k in range(len(KA))],
                     'thorough': ['j == %d and ka == %d and verbose == %d' % (j, k, vb) for j in (1, 2, 3) for k in range(len(KA)) for vb in range(3)]},
          'reach': 'equal_reach', 'reach_bounds': {'quick': _BE + ' and su == 0', 'thorough': _BE + ' and su == 0'},
